@@ -6,8 +6,8 @@ of channel `i` that clipped in this call).  Inside `#pragma omp parallel for` th
 threads.  Each channel's addition is one action of some thread; threads are anonymous, the interleaving is arbitrary, the
 number of channels (hence of threads) is arbitrary.
 
-* `A…` — the addition as ONE atomic step (what `#pragma omp atomic` would give): the total is exact, under every interleaving.
-* `N…` — the addition as written, a load followed by a store: updates can be lost; the total never exceeds the exact sum.
+* `A…` — the addition as ONE atomic step: the code as it is since the fix of F8 (`#pragma omp atomic` on `p->clips += clips`): the total is exact, under every interleaving.
+* `N…` — the addition as it was written before that fix, a load followed by a store: updates can be lost; the total never exceeds the exact sum.
 -/
 namespace Soxr.Conc.Clips
 
@@ -54,7 +54,7 @@ def arun : List Nat → ASt → ASt
   | [], s => s
   | c :: cs, s => arun cs { total := s.total + c, todo := s.todo.erase c }
 
-/-! ## the pinned non-atomic read-modify-write -/
+/-! ## the former non-atomic read-modify-write (before the fix of F8) -/
 structure NSt where
   total : Nat
   todo : List Nat
